@@ -98,6 +98,10 @@ fn main() {
             }
             worst
         }
+        Some("sweepinfo") => {
+            println!("sweep_total={}", modee::sweep_total());
+            0
+        }
         Some("replay") => runner::replay_main(Path::new(&a[2])),
         _ => {
             eprintln!("usage: mp4sim check <ID> <quick|thorough> | replay <file>");
